@@ -64,6 +64,7 @@ type writer struct {
 }
 
 var mediaBoxes = []pdf.Object{pdf.Array{pdf.Integer(0), pdf.Integer(0), pdf.Integer(612), pdf.Integer(792)}, pdf.Array{pdf.Integer(0), pdf.Integer(0), pdf.Integer(595), pdf.Integer(842)}, pdf.Array{pdf.Integer(0), pdf.Integer(0), pdf.Real(100.5), pdf.Integer(200)}}
+
 // two of the crop boxes coincide with media boxes: "CropBox equals MediaBox"
 // is a redundancy somewhere in the tree, but not for every page below it
 var cropBoxes = []pdf.Object{nil, pdf.Array{pdf.Integer(10), pdf.Integer(10), pdf.Integer(190), pdf.Integer(190)}, pdf.Array{pdf.Integer(0), pdf.Integer(0), pdf.Integer(50), pdf.Integer(50)},
